@@ -148,12 +148,49 @@ func c17Scenario(clients []gridClient) *explore.Scenario {
 			// (BuildHandshakeStateWithoutSession, BuildHandshakeState) before Handshake; 2 the *Config is
 			// shared with a second connection of another parrot family that builds its own hello while
 			// this one waits for the server's answer (UClient does not clone the Config)
-			env := x.Choose("env", 3)
+			// 3 the caller removed the SNI extension with RemoveSNIExtension; 4 the caller re-sliced
+			// UConn.Extensions into a list with spare capacity and appended an extension of its own
+			env := x.Choose("env", 5)
 			what += fmt.Sprintf(" env=%d", env)
 			ccfg := g.config("example.com")
 			prep := g.prepare()
 			if env == 1 {
 				prep = withBuildOrder(prep, 2)
+			}
+			if env == 3 || env == 4 {
+				if isGolang(g.ID) {
+					r.Obs = "n/a"
+					return
+				}
+				inner := prep
+				prep = func(u *tls.UConn) error {
+					if inner != nil {
+						if err := inner(u); err != nil {
+							return err
+						}
+					}
+					if err := u.BuildHandshakeState(); err != nil {
+						return err
+					}
+					if env == 3 {
+						return u.RemoveSNIExtension()
+					}
+					ne := make([]tls.TLSExtension, 0, len(u.Extensions)+8)
+					var last tls.TLSExtension
+					for i, e := range u.Extensions {
+						if _, isPSK := e.(tls.PreSharedKeyExtension); isPSK && i == len(u.Extensions)-1 {
+							last = e
+							continue
+						}
+						ne = append(ne, e)
+					}
+					ne = append(ne, &tls.GenericExtension{Id: 0x6f6f, Data: []byte{1, 2, 3}})
+					if last != nil {
+						ne = append(ne, last)
+					}
+					u.Extensions = ne
+					return nil
+				}
 			}
 			if env == 2 {
 				inner := hk.Out
@@ -310,7 +347,7 @@ func c17Scenarios(thorough bool) []*explore.Scenario {
 func init() {
 	register(&Prop{ID: "C17", Level: "exploration", Variant: "A", Scenarios: c17Scenarios,
 		Run: func(c *explore.Check, thorough bool) {
-			c.Rule = "every TLS 1.3 client without PSK (all IDs, 2 (64) seeds per randomized kind, custom specs) x every classical group it lists without a share (forced through the verif group hook) x cookie {none, 1, 32, 255, 1024, 4000, 16000 bytes} (added to the HRR before it enters the server transcript) x HRR kind {valid, group not listed, group already shared, neither group nor cookie, second HRR} x environment {plain, hello built twice before Handshake, *Config shared with a connection of another parrot family that builds its hello while this one awaits the server}: valid => CH2 equals CH1 extension by extension except key_share (exactly one fresh share of the requested group), the echoed cookie and padding, and the handshake completes with echo; invalid => client error and no further ClientHello. distinct = (client, kind, group, cookie)"
+			c.Rule = "every TLS 1.3 client without PSK (all IDs, 2 (64) seeds per randomized kind, custom specs) x every classical group it lists without a share (forced through the verif group hook) x cookie {none, 1, 32, 255, 1024, 4000, 16000 bytes} (added to the HRR before it enters the server transcript) x HRR kind {valid, group not listed, group already shared, neither group nor cookie, second HRR} x environment {plain, hello built twice before Handshake, *Config shared with a connection of another parrot family that builds its hello while this one awaits the server, SNI extension removed with RemoveSNIExtension, UConn.Extensions re-sliced with spare capacity plus an appended extension}: valid => CH2 equals CH1 extension by extension except key_share (exactly one fresh share of the requested group), the echoed cookie and padding, and the handshake completes with echo; invalid => client error and no further ClientHello. distinct = (client, kind, group, cookie)"
 			c.Assumptions = []string{"the utls server with verif hooks H1/H2 is the HelloRetryRequest source; its transcript sees the modified HRR", "the cookie insertion index is drawn from a fresh PRNG and is observed, not enumerated", "the server tolerates the echoed cookie through the verif hook AcceptCookie13 (crypto/tls servers never issue cookies and would reject one)"}
 			runAll(c, c17Scenarios(thorough), 0)
 			c.Gate(c.Total.Counters["valid_hrr_cases"] > 200, "non-vacuity: %d valid HRR cases", c.Total.Counters["valid_hrr_cases"])
